@@ -395,6 +395,28 @@ def run(report, p):
     if n_sets == 0:
         raise AnalysisError("no iteration over a set found (rename detection loops expected)")
 
+    # ------------------------------------------------------------------ R13.6
+    r6 = report.rule(
+        "R13.6",
+        "no default argument freezes the environment: a parameter default is evaluated once, when the module is imported; a default that reads the working directory, "
+        "the clock or the environment (os.getcwd(), datetime.now(), os.environ ...) makes later calls resolve paths against the import-time location",
+        3,
+    )
+    ENV_CALLS = ("os.getcwd", "os.path.abspath", "os.path.realpath", "os.path.expanduser", "datetime.now", "datetime.datetime.now", "datetime.utcnow", "time.time", "time.localtime", "os.getenv", "os.environ.get", "Path.cwd", "pathlib.Path.cwd", "Path.home")
+    ndef = 0
+    for fq, f in sorted(p.funcs.items()):
+        if f.module.name in unshipped:
+            continue
+        for pn, d in f.param_defaults().items():
+            if isinstance(d, ast.Constant):
+                continue
+            ndef += 1
+            r6.instance(f, d, f"{f.name}({pn}={norm(d)[:40]})")
+            bad = [norm(x.func) for x in ast.walk(d) if isinstance(x, ast.Call) and any(norm(x.func).endswith(e) for e in ENV_CALLS)] + [norm(x) for x in ast.walk(d) if isinstance(x, ast.Attribute) and norm(x) == "os.environ"]
+            r6.check(not bad, f, d, f"default `{pn}={norm(d)[:50]}` of {f.name} is computed at import time from {bad[0] if bad else ''}: a process that changes its working directory afterwards (library use, test runners) resolves relative paths against the old location", construct=f"import-time default {f.name}.{pn}")
+    r6.instance(None, None, f"{ndef} non-constant parameter default(s) in shipped code")
+    r6.check(True, None, None, "")
+
     # ------------------------------------------------------------------ R13.5
     r5 = report.rule(
         "R13.5",
